@@ -86,3 +86,34 @@ pub fn rn_even(a: i128, p: u32) -> i128 {
     let v = (q2 << sh) as i128;
     if neg { -v } else { v }
 }
+
+/// trunc(s * 2^(bits-1)) for |s| <= 1, decoded from the bit pattern (f32)
+pub fn ref_trunc_f32(s: f32, bits: u32) -> i128 {
+    let b = s.to_bits();
+    let neg = (b >> 31) != 0;
+    let e = ((b >> 23) & 0xff) as i32;
+    let m = (b & 0x7f_ffff) as u128;
+    let (mant, exp) = if e == 0 { (m, -149) } else { (m | (1 << 23), e - 150) };
+    let sh = exp + (bits as i32 - 1);
+    let mag: u128 = if sh >= 0 { mant << (sh as u32) } else if -sh >= 64 { 0 } else { mant >> ((-sh) as u32) };
+    if neg { -(mag as i128) } else { mag as i128 }
+}
+
+pub fn ref_trunc_f64(s: f64, bits: u32) -> i128 {
+    let b = s.to_bits();
+    let neg = (b >> 63) != 0;
+    let e = ((b >> 52) & 0x7ff) as i32;
+    let m = (b & 0xf_ffff_ffff_ffff) as u128;
+    let (mant, exp) = if e == 0 { (m, -1074) } else { (m | (1 << 52), e - 1075) };
+    let sh = exp + (bits as i32 - 1);
+    let mag: u128 = if sh >= 0 { mant << (sh as u32) } else if -sh >= 64 { 0 } else { mant >> ((-sh) as u32) };
+    if neg { -(mag as i128) } else { mag as i128 }
+}
+
+/// reference int -> f32 / f64: RN_p(amp) / 2^(bits-1), every operation exact
+pub fn ref_to_f32<S: IntFmt>(s: S) -> f32 {
+    (rn_even(s.amp(), 24) as f32) / ((1u128 << (S::BITS - 1)) as f32)
+}
+pub fn ref_to_f64<S: IntFmt>(s: S) -> f64 {
+    (rn_even(s.amp(), 53) as f64) / ((1u128 << (S::BITS - 1)) as f64)
+}
